@@ -288,8 +288,11 @@ int accept(ACCEPTPARAMS) {
   }
 
   int sock = fibershim_accept(sockfd, addr, addrlen);
-  if (sock < 0 && (errno == EWOULDBLOCK || errno == EAGAIN) &&
-      should_block(sockfd)) {
+  // keep waiting until a connection is actually obtained: the one announced by
+  // the readiness event may have been taken by another fiber accepting on the
+  // same socket in the meantime
+  while (sock < 0 && (errno == EWOULDBLOCK || errno == EAGAIN) &&
+         should_block(sockfd)) {
     if (!fiber_wait_for_event(sockfd, FIBER_POLL_IN)) {
       return -1;
     }
